@@ -111,6 +111,7 @@ def gen_case(rng, tier):
             stat_rows[rng.randrange(N)] = []
     k = rng.randint(1, 3)
     init_c = sig6(X0[rs.choice(n0, size=k, replace=False)] + rs.randn(k, d) * 0.05 * scale)
+    xbig = rng.choice([1025, 4097, 5000, 9000]) if rng.random() < 0.06 else 0
     n_ops = rng.randint(5, 30 if tier == "thorough" else 16)
     ops, have = [], set()
     history_calls = []
@@ -128,7 +129,12 @@ def gen_case(rng, tier):
             ops.append({"op": "scribble", "target": rng.choice(SCRIBBLE_TARGETS),
                         "idx": rng.randrange(N)})
             continue
-        o = {"op": name, "np_seed": rng.randint(0, 2 ** 31 - 1), "X": rng.choice(["X0", "X1"]),
+        xname = rng.choice(["X0", "X1"])
+        if xbig and name in ("kmeans_fit", "gmm_ml_fit", "gmm_map_fit", "km_varw", "km_use",
+                             "ubm_acc_stats", "ubm_ll", "map_ll", "lin_transform") \
+                and rng.random() < 0.6:
+            xname = "Xbig"  # a data set / block of thousands of rows
+        o = {"op": name, "np_seed": rng.randint(0, 2 ** 31 - 1), "X": xname,
              "backend": rng.choice(["np", "np", "da", "bag"]),
              "sel": rng.sample(range(N), min(N, tail(rng, 1, min(5, N), [9, 17], 0.04))),
              "it": rng.randint(1, 2), "flag": rng.random() < 0.5,
@@ -152,6 +158,7 @@ def gen_case(rng, tier):
                   "weights": L(gen_simplex(rng, c))},
         "X0": L(X0), "X1": L(X1), "y0": y0, "ys": ys, "stat_rows": stat_rows,
         "xlayout": rng.choice(["C", "C", "F", "strided", "transposed"]),
+        "xbig": xbig,
         "init_c": L(init_c), "rU": rng.randint(1, 2), "rV": rng.randint(1, 2),
         "dim_t": rng.randint(1, 2), "ops": ops,
     }
@@ -183,6 +190,12 @@ class Pool:
         self.case = case
         c = case["c"]
         self.X0, self.X1 = _layout(case, A(case["X0"])), _layout(case, A(case["X1"]))
+        if case.get("xbig"):
+            rb = np.random.RandomState(case["xbig"])
+            self.Xbig = _layout(case, self.X0[rb.randint(0, len(self.X0), size=case["xbig"])]
+                                + rb.randn(case["xbig"], self.X0.shape[1]) * 0.1)
+        else:
+            self.Xbig = self.X1
         self.y0_list = list(case["y0"])
         self.y0_arr = np.array(case["y0"])
         self.ys_arr = np.array(case["ys"])
@@ -205,11 +218,11 @@ class Pool:
         self.models = {}
 
     def X(self, name):
-        return self.X0 if name == "X0" else self.X1
+        return {"X0": self.X0, "X1": self.X1, "Xbig": self.Xbig}[name]
 
     def arrays(self):
         """Every caller-owned ndarray (for shares_memory checks)."""
-        out = [("X0", self.X0), ("X1", self.X1), ("init_c", self.init_c),
+        out = [("X0", self.X0), ("X1", self.X1), ("Xbig", self.Xbig), ("init_c", self.init_c),
                ("y0", self.y0_arr), ("ys", self.ys_arr), ("offsets", self.offsets),
                ("model_means", self.model_means)]
         for nm, g in (("ubm", self.ubm), ("prior", self.prior)):
@@ -221,7 +234,7 @@ class Pool:
         return out
 
     def input_digests(self):
-        dg = {"X0": digest(self.X0), "X1": digest(self.X1), "y0_list": digest(self.y0_list),
+        dg = {"X0": digest(self.X0), "X1": digest(self.X1), "Xbig": digest(self.Xbig), "y0_list": digest(self.y0_list),
               "y0_arr": digest(self.y0_arr), "ys_arr": digest(self.ys_arr),
               "ys_list": digest(self.ys_list), "init_c": digest(self.init_c),
               "offsets": digest(self.offsets), "model_means": digest(self.model_means),
